@@ -15,9 +15,13 @@ FitVals == {0, 3, 4, 6}
 MinVarCase(c) ==
   LET objs == 1 + (c % 2) sample == 2 + (c % 2) len == 5
       fits == [g \in 1..len |-> [o \in 1..objs |-> (CHOOSE v \in FitVals : Cardinality({ w \in FitVals : w < v }) = Hash(c, g * 3 + o, 4))]]
-      th == IF c % 3 = 0 THEN <<1, 10>> ELSE IF c % 3 = 1 THEN <<1, 2>> ELSE <<1, 1>> IN
-  [kind |-> "minvar", sample |-> sample, tn |-> th[1], td |-> th[2], fits |-> fits,
-   exp |-> [g \in 1..len |-> A_MinVariationFires(fits, sample, g - 1, th[1], th[2])],
+      th == IF c % 3 = 0 THEN <<1, 10>> ELSE IF c % 3 = 1 THEN <<1, 2>> ELSE <<1, 1>>
+      global == (c % 5) < 3
+      \* phases move forward only: the switch to exploration / exploitation happens at generations e1 <= e2 (1-based; beyond len = never)
+      e1 == 1 + Hash(c, 91, 4) e2 == e1 + Hash(c, 92, 4)
+      phases == [g \in 1..len |-> IF g < e1 THEN "initial" ELSE IF g < e2 THEN "exploration" ELSE "exploitation"] IN
+  [kind |-> "minvar", sample |-> sample, tn |-> th[1], td |-> th[2], fits |-> fits, global |-> global, phases |-> phases,
+   exp |-> [g \in 1..len |-> A_MinVariationFires(fits, sample, g - 1, th[1], th[2], global, phases)],
    tie |-> [g \in 1..len |-> A_MinVariationTie(fits, sample, g - 1, th[1], th[2])]]
 MinVarCases == { MinVarCase(c) : c \in 1..(IF Thorough THEN 6000 ELSE 800) }
 EstimateCases == { [kind |-> "estimate", limit |-> lim, gens |-> <<0, 1, lim - 1, lim, lim + 1, 10 * lim, 1000000>>] : lim \in {1, 2, 7, 1000} }
